@@ -118,11 +118,13 @@ fn is_on(arr: &[f64], sum: f64, p: f64, margin: f64) -> Option<bool> {
 
 /// the number of move_to's an exact dasher emits for one contour; None when a boundary falls within eps of the
 /// start or end of the contour (the count then legitimately depends on rounding)
-fn expected_moves(arr: &[f64], sum: f64, off: f64, off0: f64, len: f64, closed: bool) -> Option<i128> {
+fn expected_moves(arr: &[f64], sum: f64, off: f64, off0: f64, len: f64, closed: bool, exact: bool) -> Option<i128> {
     if !(len > 0.0) {
         return Some(0);
     }
-    let eps = 1e-4 * (len + sum) + off0.abs() * 1.5e-6;
+    // `exact`: every quantity is a small integer (positive intervals, integer offset, axis-aligned integer polyline), so the
+    // binary32 arithmetic of the implementation is exact and coincidences of boundaries are decided, not rounded
+    let eps = if exact { 0.0 } else { 1e-4 * (len + sum) + off0.abs() * 1.5e-6 };
     if off0 != 0.0 && (off < eps || sum - off < eps) {
         return None; // the phase is at the seam of the pattern: either side is right
     }
@@ -263,6 +265,10 @@ pub fn run_dash_geo(l: &[i128]) -> Vec<i128> {
     // 2b. polylines: the number of pieces is exactly what an exact dasher emits (zero-length dots included)
     let mut moves_expected: i128 = 0;
     let mut moves_known = !curves;
+    let small_int = |v: f64| v.fract() == 0.0 && v.abs() < 1e5;
+    let exact_inputs = !curves && f(l[2 + n]) == 1.0 && arr.iter().all(|a| small_int(*a) && *a > 0.0) && small_int(off0)
+        && path.points().iter().all(|p| small_int(p.x as f64) && small_int(p.y as f64))
+        && src.iter().all(|c| c.windows(2).all(|w| w[0].fx == w[1].fx || w[0].fy == w[1].fy));
     if !curves {
         let mut flags: Vec<bool> = Vec::new();
         let (mut nverbs, mut cl) = (0, false);
@@ -289,7 +295,7 @@ pub fn run_dash_geo(l: &[i128]) -> Vec<i128> {
             moves_known = false;
         } else {
             for (c, cl) in src.iter().zip(flags.iter()) {
-                match expected_moves(&arr, sum, off, off0, poly_len(c), *cl) {
+                match expected_moves(&arr, sum, off, off0, poly_len(c), *cl, exact_inputs) {
                     Some(m) => moves_expected += m,
                     None => moves_known = false,
                 }
